@@ -13,6 +13,13 @@ def set_datum(data, data_path, datum):
     data[idx] = datum
 
 
+def set_datum_at(data, concrete_path, datum):
+    """Set a datum at a concrete path given as a tuple of mapping keys/list indices."""
+    for key in concrete_path[:-1]:
+        data = data[key]
+    data[concrete_path[-1]] = datum
+
+
 class Data:
     def __init__(self, data):
 
